@@ -109,7 +109,8 @@ def readPhase (t : Tables) (parse : ParseExc → Option Nat) (val : ValExc → O
   | .cancel => none                          -- `vgi_rpc.cancel` is not looked at here
   | .parseFail e => some (tableResponse t (parse e))
   | .badMeta m => some (tableResponse t (val (metaExc m)))
-  | .badParams => some (tableResponse t (val .typeError))
+  | .badParams .mismatch => some (tableResponse t (val .typeError))
+  | .badParams .badNames => some (tableResponse t (parse .unicodeDecode))   -- raised when the kwargs are built
 
 /-- `_RpcResource.on_post` + `_run_unary_sync` -/
 def unaryResource (t : Tables) (rq : Req) : Resp :=
@@ -172,18 +173,18 @@ def exchangeResource (t : Tables) (rq : Req) : Resp :=
             match rq.beh with
             | .raises | .turnRaises => inband t t.producerFail
             | .ok | .overshoot => inband t 200
-          else if rq.body = .badParams then
-            -- `_coerce_input_batch` raises TypeError
-            match t.coerceStatus with
-            | some s => errorResponse t s
-            | none => escaped
           else
-            match rq.beh with
-            | .raises | .turnRaises =>
-              let p := setStatus t t.exchangeFail
-              ⟨p.1, p.2, true, true⟩
-            | .overshoot => inband t t.exchangeOvershoot
-            | .ok => inband t 200
+            match rq.body with
+            | .badParams d =>
+              -- `_coerce_input_batch` raises (TypeError for a mismatch, UnicodeDecodeError for the names)
+              tableResponse t (t.coerce d)
+            | _ =>
+              match rq.beh with
+              | .raises | .turnRaises =>
+                let p := setStatus t t.exchangeFail
+                ⟨p.1, p.2, true, true⟩
+              | .overshoot => inband t t.exchangeOvershoot
+              | .ok => inband t 200
 
 def resource (t : Tables) (rq : Req) : Resp :=
   match rq.route with
